@@ -128,7 +128,25 @@ def write_ndjson(path, events):
             f.write(json.dumps(e, separators=(",", ":")) + "\n")
 
 
-def validate_trace(module, cfg, events, seg_key="reset", max_rejects=12, workers=1, dfs=False, timeout=1100, spec_dirs=(), heap="8g", independent=False):
+def validate_trace(module, cfg, events, seg_key="reset", max_rejects=12, workers=1, dfs=False, timeout=1100, spec_dirs=(), heap="8g", independent=False, parallel=8):
+    """see _validate_trace.  Traces whose segments do not share state (independent=True) are cut at segment boundaries into `parallel` chunks that are
+    validated concurrently (one JVM each), each with its own rejection budget: rejections caused by listed findings cannot use up the budget of the rest."""
+    if independent and parallel > 1 and len(events) > 400:
+        bounds = [i for i, e in enumerate(events) if e.get("e") == seg_key]
+        if not bounds or bounds[0] != 0: bounds = [0] + bounds
+        per = max(1, len(bounds) // parallel)
+        cuts = [bounds[i] for i in range(0, len(bounds), per)][:parallel] + [len(events)]
+        chunks = [events[cuts[i]:cuts[i + 1]] for i in range(len(cuts) - 1) if cuts[i] < cuts[i + 1]]
+        import concurrent.futures
+        with concurrent.futures.ThreadPoolExecutor(len(chunks)) as ex:
+            outs = list(ex.map(lambda c: _validate_trace(module, cfg, c, seg_key, max_rejects, workers, dfs, timeout, spec_dirs, "4g", True), chunks))
+        info = dict(runs=sum(o[3]["runs"] for o in outs), wall=max(o[3]["wall"] for o in outs), chunks=len(chunks))
+        if any(o[3].get("truncated") for o in outs): info["truncated"] = True
+        return sum(o[0] for o in outs), sum((o[1] for o in outs), []), sum(o[2] for o in outs), info
+    return _validate_trace(module, cfg, events, seg_key, max_rejects, workers, dfs, timeout, spec_dirs, heap, independent)
+
+
+def _validate_trace(module, cfg, events, seg_key="reset", max_rejects=12, workers=1, dfs=False, timeout=1100, spec_dirs=(), heap="8g", independent=False):
     """Validate a recorded trace (list of event dicts) against spec/<module>.tla.
 
     The trace spec consumes one event per step (variable l) and is accepted iff l runs off the end
